@@ -56,6 +56,9 @@ var multi = []string{
 	"T | where s == '\u65e5\u672c'; U | extend x - 1; V | summarize sum(y) by z",
 	"T|where a=~b;U|where a!~b;let x=a<=b",
 	"let a = 1;\nlet b = a + 1;\n\nT\n| where x == b\n| extend y = x[1], z = f(x, -1)[2]\n;\nlet c = 3",
+	// unnamed columns of every expression kind (their names are cut out of the source) after other statements
+	"let lv = 1; // c\n; T | summarize countif(level in ('a', 'b')), count(), sum(x[0]) by k, (j), b % 2 | extend x in (1, 2), y[0], (z), -w, not(v), 'lit', f(a.b, c), a.b.c == 1",
+	"let p = 'é'; let q = p; T | extend s =~ 'é', n in (1,\n 2) | summarize max(n in (3)) by strcat(s, 'x') | project-away",
 }
 
 func generate(w *mon.W) {
